@@ -14,7 +14,7 @@ def run(ctx):
     ctx.tlc_stats.append(dict(name="enumerate", module="Isolation", cfg="sites x forms x 2^4 settings x static x exposure", generated=r["generated"],
                               distinct=r["distinct"], depth=r["depth"], wall_s=round(r["wall"], 1), violated=None))
     cases = core.behaviours_from_print(r["out"])
-    if len(cases) < 2000:
+    if len(cases) < 4000:
         raise Undecided("TLC printed only %d cases" % len(cases))
     if ctx.quick():
         ctx.rng.shuffle(cases)
@@ -67,6 +67,6 @@ def run(ctx):
                         bounds="sites {spec.tls secretName, auth-tls-secret, secure-crt-secret, secure-verify-ca-secret, auth-secret, auth-url svc://, Gateway "
                                "certificateRefs} x forms {b/name, secret://b/name, certificateRef namespace} x the four cross-namespace keys in {allow, deny} (crt "
                                "also an invalid value) x --allow-cross-namespace x {foreign object unused, also used by an Ingress of its own namespace} x "
-                               "{settings from the start, settings replacing a reconciled all-allow state}"),
+                               "{settings from the start, settings replacing a reconciled all-allow state, allow and the settings again within one batch}"),
                         assumptions=["influence is measured on the exact normal form of the written configuration: reference to an existing foreign object vs "
                                      "reference to a name that does not exist", "the namespace field of a Gateway certificateRef is documented as not implemented: only the no-influence side is judged for it"])
